@@ -213,6 +213,11 @@ class Layout:
         if isinstance(node, _ValNode):
             return node.value
         key = self.source_of(node)
+        if key is None and isinstance(node, ast.Call) and any(isinstance(a, ast.Name) and isinstance(st.env.get(a.id), str) for a in node.args):
+            # an item name held in a loop variable over a constant tuple: read the call with the name filled in
+            filled = ast.Call(func=node.func, args=[ast.Constant(value=st.env[a.id]) if isinstance(a, ast.Name) and isinstance(st.env.get(a.id), str) else a
+                                                    for a in node.args], keywords=node.keywords)
+            key = self.source_of(ast.copy_location(filled, node))
         if key is not None:
             return Src(key)
         if isinstance(node, ast.Constant):
@@ -708,6 +713,8 @@ class Layout:
                 and not any(isinstance(x, (ast.Break, ast.Continue)) for x in ast.walk(stmt)):
             # a loop over a literal sequence is its body once per element
             seq = self.ev(st, stmt.iter)
+            if isinstance(seq, tuple):
+                seq = list(seq)
             if isinstance(seq, list) and len(seq) <= 16:
                 states = [st]
                 for item in seq:
